@@ -55,7 +55,7 @@ def asynkit_monitor():
 # generation
 
 VALS = [0, 1, 2, 3]
-THROWN = ["E1", "E2", "GE", "CE", "BE", "RT"]
+THROWN = ["E1", "E2", "GE", "CE", "BE", "RT", "KI", "SE"]
 
 
 def gen_op(rng, in_parent=False):
@@ -99,7 +99,9 @@ def gen_block(rng, level, nlevels, depth, budget, in_call=False, nosusp=False):
         elif r < 0.40:
             out.append(("S", rng.randint(100, 199)))
         elif r < 0.52 and level + 1 < nlevels:
-            m = level + 1 if rng.random() < 0.88 else rng.randint(0, 3)
+            # its own monitor for its child, or one that is active above it (refused); never a deeper level's
+            # monitor: one Monitor drives one coroutine (ASSUMPTIONS)
+            m = level + 1 if rng.random() < 0.88 else rng.randint(0, level + 1)
             out.append(("U", m, gen_op(rng, True), "u"))
         elif r < 0.62:
             out.append(("L", rng.randint(1, 9)))
@@ -141,7 +143,10 @@ def gen_close_probe(rng):
     the close with an oob to the outer monitor, the parent survives the RuntimeError and carries on"""
     d1, d2, t = rng.randint(10, 99), rng.randint(10, 99), rng.randint(100, 199)
     after = rng.choice([[("S", t)], [("O", 0, rng.randint(10, 99))], [("S", t), ("O", 0, rng.randint(10, 99))],
-                        [("L", 3), ("T", 1)]])
+                        [("L", 3), ("T", 1)],
+                        # a re-entrant call on the outer monitor right after the dropped oob (must be refused)
+                        [("TRY", [("U", 0, rng.choice([("aw", 0), ("st",), ("at", "E1")]), "u")], [("RT", [("L", 4)])], []),
+                         ("S", t)]])
     parent = [("TRY", [("U", 1, rng.choice([("aw", 0), ("st",)]), "u")],
                [(rng.choice(["RT", "EXC", "BASE"]), after + [("L", 1)])], [])]
     kid = [("TRY", [("O", 0, d1)] + ([("S", rng.randint(100, 199))] if rng.random() < 0.3 else []),
@@ -172,10 +177,12 @@ def gen_case(rng):
             script.append(("call", 0, rng.choice(["u", "b", "B"]), gen_op(rng)))
         elif r < 0.82:
             script.append(("send", rng.choice(VALS)))
-        elif r < 0.93:
+        elif r < 0.92:
             script.append(("throw", rng.choice(THROWN)))
-        else:
+        elif r < 0.96:
             script.append(("close",))
+        else:
+            script.append(("kill",))      # coro.close() on the driven coroutine, outside the monitor
     return {"progs": progs, "script": script, "reent": rng.random() < 0.35}
 
 
@@ -372,7 +379,7 @@ class Real:
         return out, False
 
     def call(self, m, fl, op):
-        self.olog.append(("act", "call", op))
+        self.olog.append(("act", "call", op, self.pending is not None))
         self.olog.append(("drv", m, op, self.M[m].state, corostate(self.top)))
         self.acts.append((m, fl, op))
         before, st0, n0 = corostate(self.top), self.M[m].state, len(self.arrived)
@@ -413,6 +420,17 @@ class Real:
         if g["tb"] is not None and not mp.tb_contains(e, g["tb"]):
             return ("athrow-traceback", "given traceback kept", "traceback lost")
         return None
+
+    def kill(self):
+        """close the driven coroutine directly (what a driver's clean-up or the GC does), no monitor involved"""
+        self.olog.append(("act", "kill", None))
+        try:
+            self.top.close()
+            out = "ret 0"
+        except BaseException as e:  # noqa: BLE001
+            out = f"exc {mp.canon_exc(e)}"
+        self.olog.append(("killed", out))
+        return self.snapshot(out)
 
     def resume(self, kind, arg=None):
         m, c = self.pending
@@ -455,6 +473,11 @@ def run_raw(case):
                 lines.append(op_line(a))
                 outs.append(real.call(a[1], a[2], a[3]))
                 continue
+        if a[0] == "kill":
+            if real.pending is None and corostate(real.top) == "susp":
+                lines.append("kill")
+                outs.append(real.kill())
+            continue
         if real.pending is None:
             continue
         lines.append(op_line(a))
@@ -527,6 +550,7 @@ def oracle(olog, tags):
     ge = False             # a GeneratorExit may be in flight in the current top-level action
     awaiting_reply = {}    # monitor -> d  (an oob on m was delivered; the next accepted call on m answers it)
     top_close = False      # the current top-level action is close() of the suspended call
+    top_kill = False       # the current top-level action closes the coroutine itself, outside the monitor
     swallowed = set()      # monitors whose accepted oob value was swallowed by a close() (RuntimeError)
     n = len(olog)
     for i, ev in enumerate(olog):
@@ -534,10 +558,16 @@ def oracle(olog, tags):
         prv = olog[i - 1] if i > 0 else None
         k = ev[0]
         if k == "act":
+            top_kill = ev[1] == "kill"
+            if ev[1] == "call" and not ev[3] and nxt is not None and nxt[0] == "drv" and nxt[3] != 0:
+                # no call of this driver is in progress: the monitor must be idle
+                return "monitor-not-idle", i, ("state", 0), ("state", nxt[3])
             top_close = ev[1] == "close"
             if ev[1] == "call":
                 pass
-            ge = ev[1] == "close" or (ev[1] == "throw" and ev[2] == "GE") or (ev[1] == "call" and is_ge_op(ev[2]))
+            ge = ev[1] in ("close", "kill") or (ev[1] == "throw" and ev[2] == "GE") or (ev[1] == "call" and is_ge_op(ev[2]))
+            if top_kill:
+                awaiting_reply.clear()     # whatever oob was pending is answered by the GeneratorExit of close()
         elif k == "drv":
             _, m, op, st, cs = ev
             if is_ge_op(op):
@@ -562,7 +592,8 @@ def oracle(olog, tags):
                     exp = ("oobexc", m, "GeneratorExit")
                 else:
                     eff = mp.athrow_effective(op)
-                    exp = ("oobexc", m, {"GE": "GeneratorExit", "CE": "CancelledError", "RT": "RuntimeError"}.get(eff, eff))
+                    exp = ("oobexc", m, {"GE": "GeneratorExit", "CE": "CancelledError", "RT": "RuntimeError", "KI": "KeyboardInterrupt",
+                                         "SE": "SystemExit"}.get(eff, eff))
                 tags.add("reply-value" if exp[0] == "oobret" else "reply-exception")
                 if nxt[:3] != exp:
                     return "oob-reply", i, exp, nxt
@@ -630,6 +661,8 @@ def oracle(olog, tags):
                 leaked = prv is not None and prv[0] == "bodyexc" and str(prv[2]).startswith("OOBData")
                 if not leaked and (prv is None or prv[:3] != ("oobcall", m, x)):
                     return "start-result", i, "preceded by oob(d)", prv
+        elif k in ("bodyret", "bodyexc") and top_kill:
+            tags.add("coroutine-closed-outside-monitor")
         elif k in ("bodyret", "bodyexc"):
             _, pid, x = ev
             if nxt is None or nxt[0] not in ("ret", "exc", "got"):
@@ -716,7 +749,7 @@ def judge(case):
     body_oob = any(ev[0] == "bodyexc" and str(ev[2]).startswith("OOBData") for ev in real.olog)
     ol = real.olog
     swallowed = any(ev[0] == "susp" and not (i + 1 < len(ol) and ol[i + 1][0] == "pend") for i, ev in enumerate(ol))
-    if bad is None and lines and not body_oob and not swallowed and not any(ln.startswith(("throw", "close")) for ln in lines):
+    if bad is None and lines and not body_oob and not swallowed and not any(ln.startswith(("throw", "close", "kill")) for ln in lines):
         npend = sum(1 for o in outs if o.startswith("pend"))
         nsend = sum(1 for ln in lines if ln.startswith("send"))
         reent = any(outs[i].startswith("pend") and i + 1 < len(lines) and lines[i + 1].startswith("call")
@@ -864,6 +897,7 @@ THEOREM_OF = {
     "real-yield-passthrough": "oob_exactly_once_in_order", "oob-refused": "oob_refused_when_inactive",
     "start-result": "start_consistent", "aclose-finished": "aclose_consistent",
     "mode-task": "oob_exactly_once_in_order", "mode-sync": "oob_exactly_once_in_order",
+    "monitor-not-idle": "idle_after_every_call",
     "stale-oob-after-close": "nested_monitors (Safe is necessary: stale_oob_after_close)",
     "athrow-exception-identity": "oob_reply", "athrow-not-delivered": "oob_reply", "athrow-traceback": "oob_reply",
 }
